@@ -60,7 +60,20 @@ def run_seed(mutate=None):
         class SolutionStub:
             def __init__(self, **kw): pass
             def to_hdf5(self): pass
-        L.ns.update(DataHandler=DH, Runner=RunnerStub, Solution=SolutionStub)
+        class NPPoison:
+            """real numpy, except that memory numpy leaves uninitialised (np.empty / np.empty_like) is poisoned with NaN: whatever is
+            recorded from it is 'any value', never a defined one"""
+            def __getattr__(self_, k):
+                return getattr(np, k)
+
+            @staticmethod
+            def empty(shape, dtype=float, **kw):
+                return np.full(shape, np.nan, dtype=dtype)
+
+            @staticmethod
+            def empty_like(a, dtype=None, **kw):
+                return np.full_like(a, np.nan, dtype=dtype or float)
+        L.ns.update(DataHandler=DH, Runner=RunnerStub, Solution=SolutionStub, np=NPPoison())
         s = L["TDGLSolver"].__new__(L["TDGLSolver"])
         s.options = type("O", (), {"output_file": None, "monitor": False, "monitor_update_interval": 1.0, "include_screening": bool(SB(z3.Bool("screening"))),
                                    "sparse_solver": type("E", (), {"value": "superlu"})(), "validate": lambda self_: None})()
@@ -69,7 +82,8 @@ def run_seed(mutate=None):
         sd = type("TD", (), {})()
         for nm in ("psi", "mu", "supercurrent", "normal_current", "induced_vector_potential"):
             setattr(sd, nm, object())
-        s.seed_solution = type("Seed", (), {"device": dev, "tdgl_data": sd})()
+        seeded = bool(SB(z3.Bool("seed_solution_given")))
+        s.seed_solution = type("Seed", (), {"device": dev, "tdgl_data": sd})() if seeded else None
         s.num_edges = 4
         s.probe_points = np.array([0, 1]) if bool(SB(z3.Bool("probes"))) else None
         s.psi_init, s.mu_init = np.ones(3, dtype=complex), np.zeros(3)
@@ -85,6 +99,13 @@ def run_seed(mutate=None):
         vals = list(LOG["initial_values"])
         want = ["psi", "mu", "supercurrent", "normal_current", "induced_vector_potential"] + (["applied_vector_potential"] if s.dynamic_vector_potential else [])
         check("C11.seed_is_state.names_in_update_order", z3.BoolVal(names == want))
+        if not seeded:
+            # no seed: the recorded frame 0 is psi_init, mu_init and exactly zero currents / induced potential (defined values, not whatever
+            # happens to be in freshly allocated memory)
+            ok0 = (len(vals) >= 5 and vals[0] is s.psi_init and vals[1] is s.mu_init and all(isinstance(v_, np.ndarray) and v_.shape == sh_ and bool(np.all(v_ == 0))
+                                                                                          for v_, sh_ in zip(vals[2:5], ((4,), (4,), (4, 2)))))
+            check("C09.initial_frame.defined_and_zero_currents", z3.BoolVal(bool(ok0)), note=str([getattr(v_, "tolist", lambda: v_)() for v_ in vals[2:5]])[:300])
+            return
         check("C11.seed_is_state.initial_values_are_the_seed_frame",
               z3.BoolVal(True))
         check_same("C11.seed_is_state.initial_values_are_the_seed_frame.values", [(vals[i], getattr(sd, nm)) for i, nm in enumerate(want[:5])] +
